@@ -127,6 +127,9 @@ func runConcAPI(in concIn) (fails []concFail) {
 					if in.Mode == "mixed" && rng.Intn(2) == 0 {
 						now = t1
 					}
+					if in.Mode == "storm" {
+						now = t0.Add(time.Duration(rng.Intn(4)) * time.Second)
+					}
 					nr, mx, ok := il.Inc(now, a)
 					own[a]++
 					incs[g] = append(incs[g], incRes{a, nr, mx, ok})
@@ -153,7 +156,9 @@ func runConcAPI(in concIn) (fails []concFail) {
 					<-gate
 					for k := 0; k < 200000 && (k < 50 || !phaseDone.Load()); k++ {
 						pureEnds[r] = append(pureEnds[r], il.EndTime())
-						pureCounts[r] = append(pureCounts[r], il.Count(in.Addrs[0]))
+						if r == 0 {
+							pureCounts[r] = append(pureCounts[r], il.Count(in.Addrs[0]))
+						}
 						if k%8 == 0 {
 							runtime.Gosched()
 						}
@@ -197,11 +202,20 @@ func runConcAPI(in concIn) (fails []concFail) {
 			if in.Mode == "mixed" {
 				epochs = 2
 			}
+			if in.Mode == "storm" {
+				// the interval is negative: every request starts a new interval and gets count 1
+				for _, n := range nrs {
+					if n != 1 {
+						fail("conc:reset-missed", fmt.Sprintf("interval %d ns: a request of %q got count %d", in.IntervalNs, a, n))
+					}
+				}
+				continue
+			}
 			if ok, why := checkSegments(nrs, epochs); !ok {
 				fail("conc:lost-update", fmt.Sprintf("phase %d, %d goroutines, %d concurrent requests of %q: %s", p, G, len(nrs), a, why))
 			}
 			final := il.Count(a)
-			if in.Mode != "mixed" {
+			if in.Mode == "barrier" {
 				if len(nrs) > 0 && nrs[len(nrs)-1] != len(nrs) {
 					fail("conc:lost-update", fmt.Sprintf("phase %d: %d requests of %q, highest count handed out %d", p, len(nrs), a, nrs[len(nrs)-1]))
 				}
@@ -225,13 +239,22 @@ func runConcAPI(in concIn) (fails []concFail) {
 		// pure readers: EndTime is the end of the previous or of the current interval, never a mixture
 		{
 			ends := []time.Time{prevEnd, tp.Add(iv), t1.Add(iv)}
+			if in.Mode == "storm" {
+				for k := 0; k < 4; k++ {
+					ends = append(ends, t0.Add(time.Duration(k)*time.Second).Add(iv))
+				}
+			}
 			hiCount := len(per[in.Addrs[0]])
 			if prevCount0 > hiCount {
 				hiCount = prevCount0
 			}
 			for r := range pureEnds {
 				for _, e := range pureEnds[r] {
-					if !(e.Equal(ends[0]) || e.Equal(ends[1]) || (in.Mode == "mixed" && e.Equal(ends[2]))) {
+					okEnd := e.Equal(ends[0]) || e.Equal(ends[1]) || (in.Mode == "mixed" && e.Equal(ends[2]))
+					for _, x := range ends[3:] {
+						okEnd = okEnd || e.Equal(x)
+					}
+					if !okEnd {
 						fail("conc:endtime-torn", fmt.Sprintf("phase %d: a reader saw EndTime()=%d.%09d, which is neither the end of the previous interval nor of the current one (torn read of ResetTime)", p, e.Unix(), e.Nanosecond()))
 					}
 				}
@@ -242,7 +265,7 @@ func runConcAPI(in concIn) (fails []concFail) {
 				}
 			}
 		}
-		if in.Mode != "mixed" {
+		if in.Mode == "barrier" {
 			wantEnd := tp.Add(iv)
 			if p == 0 {
 				wantEnd = t0.Add(iv)
@@ -266,7 +289,7 @@ func runConcAPI(in concIn) (fails []concFail) {
 				}
 			}
 		}
-		if in.Mode == "mixed" {
+		if in.Mode != "barrier" {
 			break
 		}
 	}
@@ -405,6 +428,7 @@ func concScenarios(rng *rand.Rand, thorough bool) []concIn {
 		{Mode: "barrier", Seed: rng.Int63n(1 << 30), Goroutines: 16, Phases: 4, PerPhase: per, Max: 40, IntervalNs: 1_000_000_007, WhiteList: "10.0.0.0/8", Addrs: addrs},
 		{Mode: "barrier", Seed: rng.Int63n(1 << 30), Goroutines: 16, Phases: 3, PerPhase: per, Max: 3, IntervalNs: 5, WhiteList: "", Addrs: addrs[:2]},
 		{Mode: "mixed", Seed: rng.Int63n(1 << 30), Goroutines: 16, Phases: 1, PerPhase: per, Max: 25, IntervalNs: 1_000_000_000, WhiteList: "2001:db8::/32", Addrs: addrs},
+		{Mode: "storm", Seed: rng.Int63n(1 << 30), Goroutines: 16, Phases: 1, PerPhase: per, Max: 5, IntervalNs: -10_000_000_000, WhiteList: "", Addrs: addrs[:2]},
 		{Mode: "http", Seed: rng.Int63n(1 << 30), Goroutines: 16, Phases: 1, PerPhase: per / 3, Max: 30, WhiteList: "10.0.0.0/8", Addrs: addrs},
 	}
 }
